@@ -6,11 +6,18 @@ import random
 from .. import tl
 from ..lang import UserBaseErr, UserErr, exc_desc
 
+class FalsyErr(Exception):
+    """An exception object whose truth value is False (e.g. an aggregate error over an empty key list)."""
+
+    def __len__(self):
+        return 0
+
+
 ID = "C11"
 LEVEL = "exploration"
 RULE = (
     "operation sequences over {add item to this batch, add item through the kind's active-batch registry, flush, "
-    "cancel, cancel(error), last item.value(), first item.error(), batch.value(), batch.error(), state queries} x flush "
+    "cancel, cancel(error), cancel(falsy error object), last item.value(), first item.error(), batch.value(), batch.error(), state queries} x flush "
     "body mode {sets all, sets some, sets none, sets item errors, raises Exception part-way, raises BaseException "
     "part-way, creates a new item while flushing, sets an item twice} on a BatchBase subclass, and the same operations "
     "on the built-in DebugBatch/DebugBatchItem: ALL sequences up to length 4 (thorough: 5) plus seeded random longer "
@@ -23,8 +30,8 @@ RULE = (
 ASSUMPTIONS = ["items are not completed by hand before the flush (that is C10's territory)"]
 UNIT_TIMEOUT = {"quick": 300, "thorough": 2400}
 
-OPS = ["add", "add_reg", "flush", "cancel", "cancel_err", "item_value", "item_error", "batch_value", "batch_error", "query"]
-MODES = ["all", "some", "none", "itemerr", "raise", "raise_base", "spawn", "double"]
+OPS = ["add", "add_reg", "flush", "cancel", "cancel_err", "cancel_falsy", "item_value", "item_error", "batch_value", "batch_error", "query"]
+MODES = ["all", "some", "none", "itemerr", "raise", "raise_base", "raise_falsy", "spawn", "double"]
 
 
 def plan(tier, seed, build, scale):
@@ -88,17 +95,17 @@ def classes():
                         it.set_value(("iv", i))
                 elif m == "itemerr":
                     it.set_error(UserErr(("itemerr", i)))
-                elif m in ("raise", "raise_base"):
+                elif m in ("raise", "raise_base", "raise_falsy"):
                     if i == 0:
                         it.set_value(("iv", i))
                     else:
-                        self.flush_exc = (UserErr if m == "raise" else UserBaseErr)(("flush",))
+                        self.flush_exc = {"raise": UserErr, "raise_base": UserBaseErr, "raise_falsy": FalsyErr}[m](("flush",))
                         raise self.flush_exc
                 elif m == "double":
                     it.set_value(("iv", i))
                     it.set_value(("iv2", i))
-            if m in ("raise", "raise_base") and len(items) <= 1:
-                self.flush_exc = (UserErr if m == "raise" else UserBaseErr)(("flush",))
+            if m in ("raise", "raise_base", "raise_falsy") and len(items) <= 1:
+                self.flush_exc = {"raise": UserErr, "raise_base": UserBaseErr, "raise_falsy": FalsyErr}[m](("flush",))
                 raise self.flush_exc
 
     class Item(BatchItemBase):
@@ -146,8 +153,8 @@ class Model(object):
                 out.append(("exc", ("Unset",)))
             elif m == "itemerr":
                 out.append(("exc", ("UserErr", ("itemerr", i))))
-            elif m in ("raise", "raise_base"):
-                d = ("UserErr" if m == "raise" else "UserBaseErr", ("flush",))
+            elif m in ("raise", "raise_base", "raise_falsy"):
+                d = ({"raise": "UserErr", "raise_base": "UserBaseErr", "raise_falsy": "FalsyErr"}[m], ("flush",))
                 if i == 0 and n > 1:
                     out.append(("val", ("iv", 0)))
                 elif i == 0:
@@ -161,8 +168,8 @@ class Model(object):
                 else:
                     out.append(("exc", ("FutureIsAlreadyComputed",)))
                 berr = ("FutureIsAlreadyComputed",)
-        if m in ("raise", "raise_base") and n <= 1:
-            berr = ("UserErr" if m == "raise" else "UserBaseErr", ("flush",))
+        if m in ("raise", "raise_base", "raise_falsy") and n <= 1:
+            berr = ({"raise": "UserErr", "raise_base": "UserBaseErr", "raise_falsy": "FalsyErr"}[m], ("flush",))
             # the only item was set before the raise happens? no: with <=1 items the body sets item 0 first
         if m == "double" and n == 0:
             berr = None
@@ -185,6 +192,8 @@ def xdesc(e):
         return ("BatchCancelledError",)
     if isinstance(e, BatchingError):
         return ("BatchingError",)
+    if isinstance(e, FalsyErr):
+        return ("FalsyErr", e.args[0] if e.args else None)
     return exc_desc(e)
 
 
@@ -228,9 +237,9 @@ def run_h(mode, seq):
             else:
                 exp = ("raise", ("BatchingError",))
                 reached.add("double_flush")
-        elif op in ("cancel", "cancel_err"):
+        elif op in ("cancel", "cancel_err", "cancel_falsy"):
             if m.state == "pending":
-                m.finish_by_cancel(("BatchCancelledError",) if op == "cancel" else ("UserErr", ("cancel", step)))
+                m.finish_by_cancel(("BatchCancelledError",) if op == "cancel" else (("UserErr", ("cancel", step)) if op == "cancel_err" else ("FalsyErr", ("cancel", step))))
             else:
                 reached.add("cancel_after_finish")
             exp = ("ret", None)
@@ -278,6 +287,8 @@ def run_h(mode, seq):
                 got = ("ret", b.cancel())
             elif op == "cancel_err":
                 got = ("ret", b.cancel(UserErr(("cancel", step))))
+            elif op == "cancel_falsy":
+                got = ("ret", b.cancel(FalsyErr(("cancel", step))))
             elif op == "item_value":
                 got = ("ret", items[-1].value())
             elif op == "item_error":
@@ -321,7 +332,7 @@ def run_h(mode, seq):
                     if sp is None or sp.batch is b or sp.batch.is_flushed():
                         viol.append(("item-created-during-flush-did-not-join-fresh-batch", {}))
             # same error instance for every leftover item
-            if mode in ("raise", "raise_base") and m.body_runs and b.flush_exc is not None:
+            if mode in ("raise", "raise_base", "raise_falsy") and m.body_runs and b.flush_exc is not None:
                 for it in b.all_items[1:]:
                     if it.error() is not b.flush_exc:
                         viol.append(("leftover-item-error-is-not-the-flush-exception", {}))
@@ -373,9 +384,9 @@ def run_debug(seq):
             else:
                 exp = ("raise", ("BatchingError",))
                 reached.add("double_flush")
-        elif op in ("cancel", "cancel_err"):
+        elif op in ("cancel", "cancel_err", "cancel_falsy"):
             if m.state == "pending":
-                m.finish_by_cancel(("BatchCancelledError",) if op == "cancel" else ("UserErr", ("cancel", step)))
+                m.finish_by_cancel(("BatchCancelledError",) if op == "cancel" else (("UserErr", ("cancel", step)) if op == "cancel_err" else ("FalsyErr", ("cancel", step))))
             else:
                 reached.add("cancel_after_finish")
             exp = ("ret", None)
@@ -428,6 +439,8 @@ def run_debug(seq):
                 got = ("ret", b.cancel())
             elif op == "cancel_err":
                 got = ("ret", b.cancel(UserErr(("cancel", step))))
+            elif op == "cancel_falsy":
+                got = ("ret", b.cancel(FalsyErr(("cancel", step))))
             elif op == "item_value":
                 got = ("ret", items[-1].value())
             elif op == "item_error":
